@@ -190,7 +190,34 @@ pub fn run_script(input: &Value) -> Case {
                 "poll" => {
                     let ms = a[1].as_i64().unwrap_or(0);
                     let tmo = if ms < 0 { None } else { Some(Duration::from_millis(ms as u64)) };
-                    let (c, v) = poll_obs(term, tmo);
+                    let (c, v) = if ms < 0 {
+                        // an infinite poll that the script expects to return: a watchdog types a key after two
+                        // seconds so that a lost event shows up as an observation instead of a hung harness
+                        let done = std::sync::atomic::AtomicBool::new(false);
+                        std::thread::scope(|sc| {
+                            sc.spawn(|| {
+                                let t0 = Instant::now();
+                                while t0.elapsed() < Duration::from_secs(2) {
+                                    if done.load(std::sync::atomic::Ordering::SeqCst) {
+                                        return;
+                                    }
+                                    std::thread::sleep(Duration::from_millis(2));
+                                }
+                                peer.ctl(Ctl::Pause(false));
+                                peer.ctl(Ctl::Inject(b"Z".to_vec()));
+                            });
+                            let t0 = Instant::now();
+                            let r = poll_obs(term, None);
+                            done.store(true, std::sync::atomic::Ordering::SeqCst);
+                            if t0.elapsed() >= Duration::from_millis(1900) {
+                                ("OH".to_string(), json!(format!("blocked for 2 s, then {}", r.1)))
+                            } else {
+                                r
+                            }
+                        })
+                    } else {
+                        poll_obs(term, tmo)
+                    };
                     npolls += 1;
                     if c == "OQ" {
                         term_outstanding = false;
